@@ -226,6 +226,19 @@ def rule_generate(ctx, prog, chk):
         g = ctx.xcfg(prog, fn)
         calls = [c[1] for el in fn.all_elements() for c in ir.calls_in(fn, el.e)]
         if not any(c and re.search(r"rand_add|rand_inc", c) for c in calls):
+            # the update may have been moved into a static helper of the unit (rand_bytes -> rand_update -> rand_add):
+            # then the sequence is spread over two bodies and this rule, which reads one body, makes no claim
+            moved = False
+            for c in calls:
+                h = prog.get(c, near=fn) if c else None
+                if h is not None and h.static and in_scope(h):
+                    hc = [x[1] for el in h.all_elements() for x in ir.calls_in(h, el.e)]
+                    if any(x and re.search(r"rand_add|rand_inc", x) for x in hc):
+                        moved = True
+            if moved:
+                chk.gen_moved = True
+                chk.note("DRBG-UPDATE / DRBG-LIMIT: %s performs the state update in a static helper; the step sequence is not decided for this shape" % fn.name)
+                continue
             raise AnalysisBroken("DRBG-UPDATE: %s no longer calls the big-endian addition helpers; the state update is not recognisable" % fn.name)
 
         def gen(node, s, pre):
@@ -578,6 +591,9 @@ def rule_source(ctx, prog, chk):
                             "rand_gen", "rand_hash", "rand_add", "rand_inc", "rand_bytes", "bn_rand"):
                         work.append(callee)
                     n += 1
+                    if callee is not None and callee.static and in_scope(callee) and callee.rfile == f.rfile:
+                        work.append(callee)     # a static helper of the generator unit: judged by what it reaches
+                        continue
                     if SOURCE_ALLOWED.match(c[1]) or (c[1].startswith(("st_", "ok_", "bad_")) and "selftest" in f.file):
                         continue
                     chk.fail("RAND-SOURCE", f, c[1], "`%s` is reachable from %s: the generator and the samplers must be a function of the generator state alone (hash, copies and integer helpers only)" % (c[1], fn.name), line=el.line)
@@ -726,7 +742,8 @@ def run(ctx, chk):
     chk.floor("RAND-FILL", "samplers that fill digits from the generator", c["fill"], 1)
     chk.floor("DRBG-CLAMP", "generator functions with length parameters", c["clamp"], 3)
     chk.floor("DRBG-LEN", "length variables of allocations/copies", c["len"], 2)
-    chk.floor("DRBG-UPDATE", "steps of generate and limit sites", c["gen"], 8)
+    if not getattr(chk, "gen_moved", False):
+        chk.floor("DRBG-UPDATE", "steps of generate and limit sites", c["gen"], 8)
     chk.floor("DRBG-SEED", "steps of seeding", c["seed"], 4)
     chk.floor("RAND-RANGE", "sampler obligations", c["samplers"], 5)
     if chk.tier == "thorough":
